@@ -12,8 +12,8 @@ COQ_HEADER = ('From Coq Require Import ZArith Uint63.\nFrom V Require Import Com
 RULE = ('a case = a universe (3-5 real AbstractUnit subclasses with fixed and variable port counts, 5-8 AbstractStreams) and one or '
         'more operation histories; random histories have 5-50 operations drawn by a stateful generator that looks at the real objects '
         '(about 80 % chosen inside the preconditions, the rest violate them or are malformed: wrong index, non-stream, stream not in '
-        'the list), over item/slice assignment, pipe notation, insert/append/extend/replace/pop/remove/clear/empty, '
-        'disconnect_source/sink/disconnect, u1-u2, unit.disconnect(join_ends), unit.insert, take_place_of, replace_with, '
+        'the list), over item/slice/extended-slice assignment, pipe notation, insert/append/extend/replace/pop/remove/clear/empty, '
+        'disconnect_source/sink/disconnect, u1-u2, unit.disconnect(inlets, outlets, join_ends), unit.insert(stream, inlet, outlet), take_place_of, replace_with, '
         'Connection.reconnect and unit construction, with placeholders addressed by the port they sit in; exhaustive cases run EVERY '
         'sequence of depth d over a fixed 78-operation alphabet (a 26-operation sub-alphabet for the deepest level) from the empty and '
         'from generated prefixes on 3 units x 5 streams. After EVERY operation the exception class, the precondition flag and the '
@@ -21,8 +21,7 @@ RULE = ('a case = a universe (3-5 real AbstractUnit subclasses with fixed and va
         'stream\'s sink and source) are folded, on both sides, into a 63-bit rolling checksum; the checksums and the final state in '
         'full are compared with the model. non-trivial = at least one operation changed the observed state; distinct = distinct case hash')
 ASSUMPTIONS = ['docking warnings (RuntimeWarning text) are not part of the model; units and streams are created without IDs so none is emitted',
-               'extended slices (step != 1), explicit inlet/outlet arguments of AbstractUnit.insert, explicit inlets/outlets of '
-               'AbstractUnit.disconnect, auxiliary-unit ownership in Connection.reconnect, and constructor lists that contain the same '
+               'auxiliary-unit ownership in Connection.reconnect, the discard= arguments, and constructor lists that contain the same '
                'stream twice, a placeholder object or an oversize outs list are outside the modelled domain (the generator never produces them)',
                'the theorems quantify over well-formed operations (wfb: units and streams mentioned exist) used within the property\'s '
                'preconditions (preb); for compound operations (unit.insert, disconnect(join_ends), take_place_of, replace_with, '
@@ -161,6 +160,73 @@ def pre_form(fixed, size, form):
         if form[0] == 'list': return len(items) <= size
     return True
 
+def udisc_lists(op):
+    """inlets= / outlets= of unit.disconnect: None | list of ['idx', i] / ['arg', arg]"""
+    return (op[3] if len(op) > 3 else None), (op[4] if len(op) > 4 else None)
+def ditem_value(U, d):
+    return d[1] if d[0] == 'idx' else U.arg(d[1])
+
+def port_value(U, p):
+    """inlet= / outlet= argument of unit.insert: None | ['idx', i] | ['arg', arg]"""
+    if p is None: return None
+    if p[0] == 'idx': return p[1]
+    return U.arg(p[1])
+
+def uinsert_ports(op):
+    return (op[3] if len(op) > 3 else None), (op[4] if len(op) > 4 else None)
+
+def uinsert_pre(U, op):
+    """unit.insert(s, inlet, outlet): the stream has a sink; the downstream block puts the chosen outlet (default: the
+    single outlet of a fixed one-outlet unit) in the stream's place among the sink's inlets; the upstream block puts the
+    chosen inlet (default: the single inlet of a fixed one-inlet unit) in the stream's place among the source's outlets,
+    or appends the stream to a variable-size inlet list (the docstring's M1.insert(P1-0)); every assignment / append is
+    within its own precondition when performed.  Second component: whether the flag is exact in every state."""
+    unit = U.units[op[1]]; s = U.arg(op[2])
+    pin, pout = uinsert_ports(op)
+    inl, outl = port_value(U, pin), port_value(U, pout)
+    if not is_obj(s): return True, True
+    v = s._sink
+    if v is None: return False, True
+    if U.uid(v) == 999: return False, False
+    # downstream block
+    if outl is None:
+        if not (unit._outs_size_is_fixed and unit._N_outs == 1): return False, True
+        y = unit.outs[0]
+    elif is_real(outl):
+        if outl._source is not unit: return False, True
+        y = outl
+    elif is_obj(outl): return False, True                 # a placeholder used as a list index: TypeError
+    else:
+        k = norm_index(outl, len(unit.outs))
+        if k is None: return False, True
+        y = unit.outs[k]
+    ks = idx(s, list(v.ins))
+    if not pre_replace(v.ins, s, y): return False, True
+    # upstream block, evaluated in the state the downstream block leaves behind
+    if inl is None:
+        if not unit._ins_size_is_fixed:
+            if ks is None: return False, True             # ValueError above; nothing was undocked, the append would dock twice
+            return (y is not s), True
+        if unit._N_ins != 1: return False, True
+        t = s._source
+        if t is None: return False, True
+        if U.uid(t) == 999: return False, False
+        changed = (v is unit) or (y._sink is unit)         # the downstream block rewrote this unit's own inlets
+        return pre_replace(t.outs, s, unit.ins[0]), not changed
+    t = s._source
+    if is_real(inl):
+        sink_after = v if (inl is y and ks is not None) else (None if (inl is s and ks is not None) else inl._sink)
+        if sink_after is not unit: return False, True
+        z = inl
+    elif is_obj(inl): return False, True
+    else:
+        k = norm_index(inl, len(unit.outs))                # as written in the source: self.outs[inlet]
+        if k is None: return False, True
+        z = unit.outs[k]
+    if t is None: return False, True
+    if U.uid(t) == 999: return False, False
+    return pre_replace(t.outs, s, z), True
+
 def precondition(U, op):
     """(flag, exact): the property's precondition for this operation in the current real state.
     exact=False marks a sufficient condition that presumes the invariant holds (compound operations)."""
@@ -169,6 +235,16 @@ def precondition(U, op):
     if n == 'slice':
         f, s = fixed_of(U, op[1], op[2])
         return pre_slice(U.ports(op[1], op[2]), f, s, op[3], op[4], [U.arg(a) for a in op[5]]), True
+    if n == 'xslice':
+        _, sd, u, lo, hi, st, args = op
+        xs = [U.arg(a) for a in args]
+        f, sz = fixed_of(U, sd, u)
+        if st == 1: return pre_slice(U.ports(sd, u), f, sz, lo, hi, xs), True
+        if any(x is not None and not is_obj(x) for x in xs) or st == 0: return True, True
+        l = list(U.ports(sd, u))
+        objs = [x for x in xs if x is not None]
+        return (len(xs) == len(range(*slice(lo, hi, st).indices(len(l)))) and len({id(x) for x in objs}) == len(objs)
+                and all(idx(x, l) is None for x in objs)), True
     if n == 'insert': return pre_insert(U, op[1], op[2], U.arg(op[4])), True
     if n == 'append': return pre_insert(U, op[1], op[2], U.arg(op[3])), True
     if n == 'extend':
@@ -193,27 +269,8 @@ def precondition(U, op):
     if n == 'repl':      # replace_with(None): sufficient: no stream connects the unit to itself
         unit = U.units[op[1]]
         return (all(x._source is not unit for x in unit.ins) and all(x._sink is not unit for x in unit.outs)), False
-    if n == 'udisc': return True, False
-    if n == 'uinsert':
-        # one fixed outlet; one fixed inlet (the unit's inlet takes the stream's place at its source) or a
-        # variable number of inlets (the stream itself is appended, as in the docstring's M1.insert(P1-0))
-        unit = U.units[op[1]]; s = U.arg(op[2])
-        if not is_obj(s): return True, True
-        if not (unit._outs_size_is_fixed and unit._N_outs == 1 and (not unit._ins_size_is_fixed or unit._N_ins == 1)):
-            return False, True
-        if s._sink is None: return False, True
-        if U.uid(s._sink) == 999: return False, False
-        y = unit.outs[0]
-        k = idx(s, list(s._sink.ins))
-        if not unit._ins_size_is_fixed:
-            if k is None: return False, True        # ValueError, then nothing is appended
-            return (pre_set(s._sink.ins, k, y) and y is not s), True
-        if s._source is None: return False, True
-        if U.uid(s._source) == 999: return False, False
-        z = unit.ins[0]
-        selfloop = (y._sink is unit) or (s._sink is unit) or (s._source is unit)
-        ok = pre_replace(s._sink.ins, s, y) and pre_replace(s._source.outs, s, z)
-        return ok, not selfloop
+    if n == 'udisc': return True, (not op[2])    # join_ends: sufficient only (the joined inlets were just undocked)
+    if n == 'uinsert': return uinsert_pre(U, op)
     if n == 'reconnect':
         x = U.arg(op[3]); ok = True
         if op[1] is not None: ok = ok and pre_set(U.units[op[1]].outs, op[2], x)
@@ -261,6 +318,9 @@ def apply_op(U, op):
             else: unit-list(xs)
         else:
             U.ports(sd, u)[lo:hi] = xs if var != 'tuple' else tuple(xs)
+    elif n == 'xslice':
+        _, sd, u, lo, hi, st, args = op
+        U.ports(sd, u)[lo:hi:st] = [U.arg(a) for a in args]
     elif n == 'insert': U.ports(op[1], op[2]).insert(op[3], U.arg(op[4]))
     elif n == 'append': U.ports(op[1], op[2]).append(U.arg(op[3]))
     elif n == 'extend': U.ports(op[1], op[2]).extend([U.arg(a) for a in op[3]])
@@ -275,8 +335,18 @@ def apply_op(U, op):
         else: x.disconnect_source()
     elif n == 'discboth': U.arg(op[1]).disconnect()
     elif n == 'uu': U.units[op[1]] - U.units[op[2]]
-    elif n == 'udisc': U.units[op[1]].disconnect(join_ends=bool(op[2]))
-    elif n == 'uinsert': U.units[op[1]].insert(U.arg(op[2]))
+    elif n == 'udisc':
+        kw = {}
+        pi, po = udisc_lists(op)
+        if pi is not None: kw['inlets'] = [ditem_value(U, d) for d in pi]
+        if po is not None: kw['outlets'] = [ditem_value(U, d) for d in po]
+        U.units[op[1]].disconnect(join_ends=bool(op[2]), **kw)
+    elif n == 'uinsert':
+        pin, pout = uinsert_ports(op)
+        kw = {}
+        if pin is not None: kw['inlet'] = port_value(U, pin)
+        if pout is not None: kw['outlet'] = port_value(U, pout)
+        U.units[op[1]].insert(U.arg(op[2]), **kw)
     elif n == 'take': U.units[op[1]].take_place_of(U.units[op[2]])
     elif n == 'repl': U.units[op[1]].replace_with(None if op[2] is None else U.units[op[2]])
     elif n == 'reconnect':
@@ -396,10 +466,15 @@ def cform(f):
     if f[0] == 'empty': return 'FEmpty'
     if f[0] == 'one': return f'(FOne {citem(f[1])})'
     return f'(FList {clist(f[1], citem)})'
+def cport(p):
+    if p is None: return 'PNone'
+    if p[0] == 'idx': return f'(PIndex {cz(p[1])})'
+    return f'(PArg {carg(p[1])})'
 def cop(op):
     n = op[0]
     if n == 'set': return f'(OSet {csd(op[1])} {op[2]} {cz(op[3])} {carg(op[4])})'
     if n == 'slice': return f'(OSetSlice {csd(op[1])} {op[2]} {copt(op[3], cz)} {copt(op[4], cz)} {clist(op[5], carg)})'
+    if n == 'xslice': return f'(OSetSliceStep {csd(op[1])} {op[2]} {copt(op[3], cz)} {copt(op[4], cz)} {cz(op[5])} {clist(op[6], carg)})'
     if n == 'insert': return f'(OInsert {csd(op[1])} {op[2]} {cz(op[3])} {carg(op[4])})'
     if n == 'append': return f'(OAppend {csd(op[1])} {op[2]} {carg(op[3])})'
     if n == 'extend': return f'(OExtend {csd(op[1])} {op[2]} {clist(op[3], carg)})'
@@ -411,8 +486,14 @@ def cop(op):
     if n == 'disc': return f'(ODisc {csd(op[1])} {carg(op[2])})'
     if n == 'discboth': return f'(ODiscBoth {carg(op[1])})'
     if n == 'uu': return f'(OPipeUU {op[1]} {op[2]})'
-    if n == 'udisc': return f'(OUnitDisconnect {op[1]} {cbool(op[2])})'
-    if n == 'uinsert': return f'(OUnitInsert {op[1]} {carg(op[2])})'
+    if n == 'udisc':
+        pi, po = udisc_lists(op)
+        cd = lambda d: f'(DIdx {cz(d[1])})' if d[0] == 'idx' else f'(DArg {carg(d[1])})'
+        cl = lambda l: 'None' if l is None else f'(Some {clist(l, cd)})'
+        return f'(OUnitDisconnect {op[1]} {cbool(op[2])} {cl(pi)} {cl(po)})'
+    if n == 'uinsert':
+        pin, pout = uinsert_ports(op)
+        return f'(OUnitInsert {op[1]} {carg(op[2])} {cport(pin)} {cport(pout)})'
     if n == 'take': return f'(OTakePlaceOf {op[1]} {op[2]})'
     if n == 'repl': return f'(OReplaceWith {op[1]} {copt(op[2])})'
     if n == 'reconnect': return f'(OReconnect {copt(op[1])} {cz(op[2])} {carg(op[3])} {cz(op[4])} {copt(op[5])})'
@@ -549,7 +630,7 @@ def member(rng, U, sd, u):
     k = rng.randrange(len(L))
     return ['S', U.sid(L[k])] if is_real(L[k]) else ['At', sd, u, k]
 
-OPS = ['set'] * 10 + ['slice'] * 6 + ['insert'] * 3 + ['append'] * 4 + ['extend'] * 2 + ['replace'] * 4 + ['pop'] * 4 + \
+OPS = ['set'] * 10 + ['slice'] * 6 + ['xslice'] * 2 + ['insert'] * 3 + ['append'] * 4 + ['extend'] * 2 + ['replace'] * 4 + ['pop'] * 4 + \
       ['remove'] * 4 + ['clear'] * 1 + ['empty'] * 1 + ['disc'] * 4 + ['discboth'] * 2 + ['uu'] * 3 + ['udisc'] * 2 + \
       ['uinsert'] * 4 + ['take'] * 2 + ['repl'] * 2 + ['reconnect'] * 2 + ['new'] * 1
 
@@ -576,6 +657,19 @@ def gen_op(rng, U, valid):
         else:
             args = [rand_arg(rng, U) for _ in range(k)]
         return ['slice', sd, u, lo, hi, args, rng.choice(['item', 'tuple', 'pipe'])]
+    if n == 'xslice':
+        lo = rng.choice([None, None, 0, 1, -1, 2, 5, -3]); hi = rng.choice([None, None, 1, 2, -1, 0, 7, -4])
+        st = rng.choice([2, 2, -1, -1, -2, 3, 1, 0] if not valid else [2, 2, -1, -1, -2, 3])
+        npos = len(range(*slice(lo, hi, st).indices(len(L)))) if st != 0 else 1
+        k = npos if (valid or rng.random() < 0.6) else rng.randint(0, 3)
+        if valid:
+            pool = [j for j, s in enumerate(U.streams) if idx(s, L) is None]
+            rng.shuffle(pool)
+            args = [['S', j] for j in pool[:k]]
+            while len(args) < k: args.append(['None'])
+        else:
+            args = [rand_arg(rng, U) for _ in range(k)]
+        return ['xslice', sd, u, lo, hi, st, args]
     if n in ('insert', 'append', 'extend'):
         if valid:
             vs = [v for v in range(nu) if not fixed_of(U, sd, v)[0]]
@@ -614,18 +708,46 @@ def gen_op(rng, U, valid):
         while a[0] in ('None', 'Junk'): a = rand_arg(rng, U, 0.75)
         return ['discboth', a]
     if n == 'uu': return ['uu', u, rng.randrange(nu)]
-    if n == 'udisc': return ['udisc', u, rng.random() < 0.5]
+    if n == 'udisc':
+        join = rng.random() < 0.5
+        if rng.random() < 0.5: return ['udisc', u, join]
+        def items(lst):
+            if rng.random() < 0.3: return None
+            L_ = list(lst); out = []
+            for _ in range(rng.randint(0, 2)):
+                r = rng.random()
+                reals = [U.sid(x) for x in L_ if is_real(x)]
+                if r < 0.45 and reals: out.append(['arg', ['S', rng.choice(reals)]])
+                elif r < 0.85: out.append(['idx', rng.randrange(len(L_)) if L_ and (valid or rng.random() < 0.8) else rng.choice([-1, len(L_), 4])])
+                else: out.append(['arg', rand_arg(rng, U, 0.6)])
+            return out
+        return ['udisc', u, join, items(U.units[u].ins), items(U.units[u].ins if rng.random() < 0.5 else U.units[u].outs)]
     if n == 'uinsert':
+        def port(lst, sd_, v):
+            r = rng.random()
+            if r < 0.5: return None
+            L_ = list(lst)
+            if r < 0.75: return ['idx', rng.randrange(len(L_)) if L_ and rng.random() < 0.9 else rng.choice([-1, len(L_), 3])]
+            reals = [U.sid(x) for x in L_ if is_real(x)]
+            if reals and rng.random() < 0.85: return ['arg', ['S', rng.choice(reals)]]
+            return ['arg', rand_arg(rng, U, 0.6)]
         if valid:
-            vs = [v for v in range(nu) if fixed_of(U, 'o', v) == (True, 1)
-                  and (fixed_of(U, 'i', v) == (True, 1) or not fixed_of(U, 'i', v)[0])]
+            explicit = rng.random() < 0.4
+            vs = [v for v in range(nu) if explicit or (fixed_of(U, 'o', v) == (True, 1)
+                  and (fixed_of(U, 'i', v) == (True, 1) or not fixed_of(U, 'i', v)[0]))]
             if vs:
                 v = rng.choice(vs)
-                need_source = fixed_of(U, 'i', v)[0]
+                need_source = fixed_of(U, 'i', v)[0] or explicit
                 c = [k for k, s in enumerate(U.streams) if s._sink is not None and (s._source is not None or not need_source)
-                     and s is not U.units[v].outs[0]]
-                if c: return ['uinsert', v, ['S', rng.choice(c)]]
-        return ['uinsert', u, rand_arg(rng, U, 0.9)]
+                     and idx(s, list(U.units[v].outs)) is None and idx(s, list(U.units[v].ins)) is None]
+                if c:
+                    if not explicit: return ['uinsert', v, ['S', rng.choice(c)]]
+                    pout = port(U.units[v].outs, 'o', v)
+                    if pout is None and fixed_of(U, 'o', v) != (True, 1):
+                        pout = ['idx', rng.randrange(max(1, len(U.units[v].outs)))]
+                    return ['uinsert', v, ['S', rng.choice(c)], port(U.units[v].ins, 'i', v), pout]
+        if rng.random() < 0.5: return ['uinsert', u, rand_arg(rng, U, 0.9)]
+        return ['uinsert', u, rand_arg(rng, U, 0.9), port(U.units[u].ins, 'i', u), port(U.units[u].outs, 'o', u)]
     if n == 'take': return ['take', u, rng.randrange(nu)]
     if n == 'repl': return ['repl', u, rng.choice([None, rng.randrange(nu)])]
     if n == 'reconnect':
@@ -698,10 +820,13 @@ def alphabet(units, ns):
             A += [['set', sd, u, 0, ['S', 0], 'item'], ['set', sd, u, 1, ['S', 1], 'pipe'], ['set', sd, u, 0, ['At', 'o', 0, 0], 'item'],
                   ['append', sd, u, ['S', 2]], ['insert', sd, u, 0, ['S', 3]], ['pop', sd, u, 0], ['remove', sd, u, ['At', sd, u, 0]],
                   ['slice', sd, u, None, None, [['S', 0], ['S', 4]], 'item'], ['slice', sd, u, 0, 1, [['S', 1]], 'item'],
+                  ['xslice', sd, u, None, None, -1, [['S', 3], ['S', 2]]],
                   ['replace', sd, u, ['At', sd, u, 0], ['S', 2]]]
         for s in range(2):
             A.append(['disc', sd, ['S', s]])
-    A += [['uu', 0, 1], ['uu', 1, 2], ['uu', 2, 0], ['uu', 1, 1], ['udisc', 1, True], ['udisc', 0, False], ['uinsert', 0, ['S', 0]], ['uinsert', 1, ['S', 1]],
+    A += [['uu', 0, 1], ['uu', 1, 2], ['uu', 2, 0], ['uu', 1, 1], ['udisc', 1, True], ['udisc', 0, False], ['udisc', 1, False, [['idx', 0]], [['idx', 0]]],
+          ['udisc', 2, True, [['arg', ['At', 'i', 2, 0]]], None], ['uinsert', 0, ['S', 0]], ['uinsert', 1, ['S', 1]], ['uinsert', 2, ['S', 0], ['idx', 0], ['idx', 1]],
+          ['uinsert', 1, ['S', 2], None, ['idx', 0]], ['uinsert', 2, ['S', 1], ['arg', ['At', 'i', 2, 0]], ['arg', ['At', 'o', 2, 0]]],
           ['take', 2, 1], ['repl', 1, None], ['repl', 0, 2], ['discboth', ['S', 0]], ['empty', 'i', 1], ['clear', 'o', 2],
           ['extend', 'i', 1, [['S', 3], ['S', 4]]]]
     return A
@@ -729,10 +854,10 @@ def gen_cases(rng, tier):
     if tier == 'quick':
         cases += exhaustive_cases(rng, 1, 12) + exhaustive_cases(rng, 2, 3) + exhaustive_cases(rng, 3, 1, small, empty_prefix=False)
     else:
-        cases += (exhaustive_cases(rng, 1, 60) + exhaustive_cases(rng, 2, 30)
-                  + exhaustive_cases(rng, 3, 8, small, empty_prefix=False))
-        # depth 3 over the full alphabet from the initial universe, one case per first operation
-        cases += [{'kind': 'exhaustive-depth3', 'units': EXH_UNITS, 'ns': 5, 'prefix': [a], 'alphabet': A, 'depth': 2} for a in A]
+        cases += (exhaustive_cases(rng, 1, 60) + exhaustive_cases(rng, 2, 16)
+                  + exhaustive_cases(rng, 3, 6, small, empty_prefix=False))
+        # depth 3 over the full alphabet from the initial universe, one case per first operation (every other one)
+        cases += [{'kind': 'exhaustive-depth3', 'units': EXH_UNITS, 'ns': 5, 'prefix': [a], 'alphabet': A, 'depth': 2} for a in A[::2]]
     return cases
 
 def search_cases(rng, tier):
@@ -748,4 +873,9 @@ CORPUS = [
     {'kind': 'corpus', 'units': [[1, 1, True, True], [2, 1, False, True], [2, 2, True, False]], 'ns': 5,
      'histories': [[['append', 'i', 1, ['S', 0]], ['pop', 'i', 1, 2]]]},
 ]
+CORPUS.append(
+    # harness precondition formula: unit.insert(s, inlet=s) on a unit the stream loops through (found in the thorough tier)
+    {'kind': 'corpus', 'units': [[2, 1, False, True], [1, 1, True, True]], 'ns': 3,
+     'histories': [[['set', 'o', 0, 0, ['S', 0], 'item'], ['set', 'i', 0, 0, ['S', 0], 'item'],
+                    ['uinsert', 0, ['S', 0], ['arg', ['S', 0]], None], ['uinsert', 0, ['S', 0], ['idx', 0], ['arg', ['S', 0]]]]]})
 WITNESSES = []
